@@ -97,7 +97,9 @@ func rulesC20(c *Ctx) {
 	R.Rule("R3", "error provenance: no foreign error forwarded, internal codes only via BuildCashuError and masked, cause -> error value -> code", 40)
 	R.Rule("R4", "NUT-19 cache discipline", 12)
 	R.Rule("R5", "status 400 before the body in the error writer; no status on success paths", 2)
+	R.Rule("R7", "list-valued answers are JSON arrays, never null: the lists the restore and state-check operations return on success are built on an allocated (possibly empty) slice", 3)
 	R.Rule("R6", "a refusal is never answered with success: in the mint, its storage and Lightning layers and the protocol packages the error of every call is tested nil, classified or handed on before any return that may report success (sites where continuing is intended are a frozen table)", 100)
+	c.c20ListsNeverNull()
 	c.ruleErrorDisciplinePkgs("R6", []string{"mint", "mint/storage/*", "mint/lightning", "mint/manager", "mint/pubsub", "cashu", "cashu/*", "crypto"}, errToleratedMint, 100)
 	c.vocabProblems("R1")
 	pm := c.ptrMarshalers()
@@ -677,7 +679,44 @@ func (c *Ctx) c20Cache() {
 			}
 		}
 		R.Check("R4", hk, "a hit answers with the cached bytes", c.P.InstrPos(gets[0]), okHit, "on a hit the cached body is written unchanged", "")
+		// lifetime of the entry: the duration that reaches time.Now().Add in the store is at least a second (the
+		// advertised NUT-19 ttl is in seconds; a bare number of seconds read as a Duration is nanoseconds)
+		okT, whyT := c.c20CacheLifetime(sets[0])
+		R.Check("R4", hk, "cached response lives for the advertised time", c.P.InstrPos(sets[0]), okT, "the entry expires after a whole number of seconds (a constant duration of at least one second), not after nanoseconds", whyT)
 	}
+}
+
+// c20CacheLifetime: the third argument of the store call is a constant; inside the store it reaches time.Time.Add
+// either unchanged (then the constant is >= 1e9 ns) or multiplied by time.Second (then it is >= 1).
+func (c *Ctx) c20CacheLifetime(set ssa.CallInstruction) (bool, string) {
+	d := c.P.Describe(set)
+	callee := set.Common().StaticCallee()
+	if callee == nil || len(d.Args) < 3 || len(callee.Params) < 4 {
+		return false, "store call not resolvable"
+	}
+	arg := c.CtxOf(set).Of(d.Args[2])
+	if arg.K != "const" {
+		return false, "lifetime argument is not a constant: " + short(arg.String(), 80)
+	}
+	var add ssa.CallInstruction
+	for _, ci := range Calls(callee) {
+		if c.P.Describe(ci).Name == "time.(Time).Add" {
+			add = ci
+		}
+	}
+	if add == nil {
+		return false, "no time.Now().Add in the store"
+	}
+	p := "P:" + callee.Params[3].Name()
+	e := c.P.OriginsOf(callee).Of(c.P.Describe(add).Args[0])
+	big := func(s string, min int) bool { return len(strings.TrimLeft(s, "0")) >= min && !strings.HasPrefix(s, "-") }
+	switch es := e.String(); {
+	case es == p:
+		return big(arg.S, 10), "expiry = now + " + arg.S + " ns"
+	case strings.Contains(es, p) && strings.Contains(es, "#1000000000") && e.K == "bin" && e.S == "*":
+		return big(arg.S, 1), "expiry = now + " + arg.S + " s"
+	}
+	return false, "the lifetime parameter reaches the expiry as " + short(e.String(), 100) + " with argument " + arg.S
 }
 
 // c20Status: R5.
@@ -766,4 +805,54 @@ func (c *Ctx) siteIn(fn *ssa.Function, in ssa.Instruction) ssa.Instruction {
 		in = sites[0]
 	}
 	return nil
+}
+
+// c20ListsNeverNull: R7. encoding/json writes a nil slice as null; NUT-07 / NUT-09 answers carry arrays. For the two
+// operations whose answer can legitimately be empty, every slice result of a success return is an allocated list:
+// make(...), the element-wise image of a list built with make, or appends onto such a list.
+func (c *Ctx) c20ListsNeverNull() {
+	R := c.R
+	for _, path := range []string{"/v1/restore", "/v1/checkstate"} {
+		op := c.op("R7", path)
+		if op == nil {
+			continue
+		}
+		fk := c.P.FuncKey(op)
+		o := c.P.OriginsOf(op)
+		var allocated func(e *Ex) bool
+		allocated = func(e *Ex) bool {
+			if e == nil {
+				return false
+			}
+			switch e.K {
+			case "make", "map":
+				return true
+			case "acc":
+				return strings.HasPrefix(e.S, "append") && len(e.Args) > 0 && allocated(e.Args[0])
+			case "phi":
+				for _, a := range e.Args {
+					if !allocated(a) {
+						return false
+					}
+				}
+				return len(e.Args) > 0
+			}
+			return strings.HasPrefix(e.String(), "make:") || strings.HasPrefix(e.String(), "append:(make:")
+		}
+		n := 0
+		for _, r := range o.SuccessReturns() {
+			for i, rv := range r.Results {
+				if _, isSlice := rv.Type().Underlying().(*types.Slice); !isSlice {
+					continue
+				}
+				n++
+				e := o.Of(rv)
+				R.Check("R7", fk, fmt.Sprintf("result %d is an allocated list", i), c.P.InstrPos(r), allocated(e),
+					"a list returned with a nil error is never the nil slice (it would be sent as JSON null instead of an array)", short(e.String(), 120))
+			}
+		}
+		if n == 0 {
+			R.Unresolved("R7", "list results of "+fk, "no slice-typed result on a success return")
+		}
+	}
 }
